@@ -92,6 +92,8 @@ fn faults(ctx: &mut Ctx, e: &Envelope, comp: &Envelope, rng: &mut crate::rng::Rn
     let mk = |crc: u64, size: u64, data: &[u8], dig: &Item| encode(&Item::Tag(200, Box::new(Item::Tag(40003, Box::new(Item::Array(vec![Item::UInt(crc), Item::UInt(size), Item::Bytes(data.to_vec()), dig.clone()]))))));
     ctx.count(if (data.len() as u64) < size { "payload_deflated" } else { "payload_stored_raw" });
     // every single-bit flip of the payload (sampled above 256 bytes unless exhaustive)
+    // (exhaustive up to 8 KiB of payload: every flip costs a copy and an inflation of the whole payload)
+    let exhaustive = exhaustive && data.len() <= 8192;
     let bits: Vec<usize> = if exhaustive || data.len() <= 256 { (0..data.len() * 8).collect() } else { (0..1024).map(|_| rng.below(data.len() * 8)).collect() };
     if exhaustive || data.len() <= 256 {
         ctx.count("exhaustive_bitflip_payloads");
